@@ -120,9 +120,16 @@ def build(case):
                    stack_alphabet={gv(case, g) for g in case["stack"]}, transition_function=tf,
                    start_state=sv(case, case["start"]), start_stack_symbol=gv(case, case["z0"]),
                    final_states={sv(case, s) for s in case["finals"]})
+    # the caller's own sets (of ready-made State objects in part of the cases), emptied once the PDA is built
+    from pyformlang.pda import State
+    wrap = State if case.get("bulk") else (lambda x: x)
+    fin = {wrap(sv(case, s)) for s in case["finals"]}
+    sta = {wrap(sv(case, s)) for s in case["states"]}
     pda = PDA(start_state=sv(case, case["start"]), start_stack_symbol=gv(case, case["z0"]),
-              final_states={sv(case, s) for s in case["finals"]}, states={sv(case, s) for s in case["states"]},
+              final_states=fin, states=sta,
               **({"input_symbols": _ctor_inputs(case)} if case.get("ctor_eps") else {}))
+    fin.clear()
+    sta.clear()
     if case.get("bulk"):
         pda.add_transitions([(sv(case, q), "epsilon" if a is None else iv(case, a), gv(case, X), sv(case, r),
                               [gv(case, y) for y in g]) for q, a, X, r, g in case["trans"]])
